@@ -22,7 +22,7 @@ ASSUMPTIONS = ['element counts come from a table written in the harness and cros
 
 
 def required(tier):
-    return ['single', 'parallel', 'series', 'system', 'basis-equivalence', 'target:stream', 'target:stream-foreign', 'target:sv', 'target:nd',
+    return ['target:multistream', 'single', 'parallel', 'series', 'system', 'basis-equivalence', 'target:stream', 'target:stream-foreign', 'target:sv', 'target:nd',
             'target:sa', 'target:nd2', 'must-raise', 'phase-tagged']
 
 
@@ -66,7 +66,7 @@ def gen_case(rng):
     else:
         feed = flows
     if tagged: target = rng.choice(['stream', 'stream', 'stream-foreign', 'sa', 'nd2'])
-    else: target = rng.choice(['stream', 'stream', 'stream-foreign', 'sv', 'nd'])
+    else: target = rng.choice(['stream', 'stream', 'stream-foreign', 'sv', 'nd'] * 4 + ['multistream'])     # phase-less reaction offered a multi-phase stream: refused or conserving, never silently wrong
     return {'comb': comb, 'members': members, 'tagged': tagged, 'basis': basis, 'feed': feed, 'target': target, 'phase': rng.choice('lg')}
 
 
@@ -179,6 +179,29 @@ def run_case(case, rec):
             else:
                 fl = model({'comb': 'parallel', 'members': ds}, fl) if kind_ == 'parallel' else R.model_apply(fl, ds[0])
                 inter_neg = min(inter_neg, min(list(fl.values()) + [0.0]))
+    if case['target'] == 'multistream':
+        ids_ = th.chemicals.IDs
+        ms = tmo.MultiStream(None, phases=('g', 'l'), thermo=th)
+        for i, v in flows.items(): ms.imol['g' if ids_.index(i) % 2 == 0 else 'l', i] = v
+        b0 = ms.imol.data.to_array().copy()
+        rec.hit('target:multistream')
+        try:
+            rx(ms)
+        except InfeasibleRegion:
+            rec.refuse('InfeasibleRegion'); return
+        except Exception as e:
+            a0 = ms.imol.data.to_array()
+            rec.refuse(f'phase-less reaction on a multi-phase stream refused ({type(e).__name__})')
+            rec.check(np.array_equal(a0, b0), 'multiphase-target', 'refusal-changed-stream', f'the call raised {type(e).__name__} but changed the stream: {b0.tolist()} -> {a0.tolist()}')
+            return
+        a0 = ms.imol.data.to_array()
+        tot0, tot1 = b0.sum(0), a0.sum(0)
+        MWa = th.chemicals.MW
+        m0, m1 = float(tot0 @ MWa), float(tot1 @ MWa)
+        rec.check(abs(m1 - m0) <= 1e-11 * max(m0, m1), 'multiphase-target', 'mass', f'phase-less {case["comb"]} reaction applied to a multi-phase stream returned normally and changed total mass {m0!r} -> {m1!r} (rows {b0.tolist()} -> {a0.tolist()})',
+                  residual=abs(m1 - m0) / max(m0, 1e-300))
+        rec.check(bool((a0 >= 0).all()), 'multiphase-target', 'negative', f'negative phase flows after a normal return: {a0.tolist()}')
+        return
     obj, read = make_target(case, th, flows, MW)
     tag = f'{case["comb"]}/{case["basis"]}/{"tagged" if case["tagged"] else "phase-less"}/{case["target"]}'
     rec.hit('target:' + case['target']); rec.hit(case['comb'])
